@@ -6,7 +6,7 @@ from .values import Unsupported
 class LibBase:
     def __init__(self):
         self.globals = {"np": V.VOpaque("module:np"), "simpy": V.VOpaque("module:simpy"),
-                        "math": V.VOpaque("module:math"), "random": V.VOpaque("module:random")}
+                        "math": V.VOpaque("module:math"), "random": V.VOpaque("module:random"), "bisect": V.VOpaque("module:bisect")}
 
     # --- class/schema queries
     def is_method(self, cls, attr):
@@ -41,6 +41,24 @@ class LibBase:
         return None
 
     def builtin(self, ex, name, args, kw, st, node):
+        return None
+
+    def get_attr_other(self, ex, base, attr, st, lineno):
+        return None
+
+    def set_attr_other(self, ex, base, attr, v, st, lineno):
+        return None
+
+    def consult(self, ex, dyn, how, st, node):
+        raise Unsupported("consulting a user callable/generator (line %d)" % node.lineno)
+
+    def has_attr(self, ex, v, name, st):
+        return None
+
+    def isinstance_dyn(self, ex, v, tname, st):
+        return None
+
+    def isinstance_other(self, ex, v, names, st):
         return None
 
     # --- calls
